@@ -211,10 +211,16 @@ func (qe *queryEvent) handleQueryRequest(m *nats.Msg) {
 
 func (qr *queryRequest) executeCallback(cb func(QueryRequest)) {
 	// Recover from panics inside query event callback
+	returned := false
 	defer func() {
 		v := recover()
 		if v == nil {
-			return
+			if returned {
+				return
+			}
+			// A panic(nil), for which recover returns nil unless the program
+			// is built with go1.21 semantics or later.
+			v = errors.New("panic called with nil argument")
 		}
 
 		var str string
@@ -253,6 +259,7 @@ func (qr *queryRequest) executeCallback(cb func(QueryRequest)) {
 	}()
 
 	cb(qr)
+	returned = true
 }
 
 // error sends an error response as a reply.
